@@ -430,6 +430,8 @@ def run_impl(c):
         return run_learners(c)
     if k == "range":
         return run_range(c)
+    if k == "link":
+        return True   # the two models must agree (the comparison itself is computed in Coq)
     raise ValueError(k)
 
 
@@ -463,6 +465,8 @@ def emit_case(c) -> str:
         return f"(CLearners {req_lit(c['req'])} {cbool(c['split'])} {order} {cbool(bool(c.get('rev')) and c['driver'] != 'simple')})"
     if k == "range":
         return f"(CRange {cnat(c['n'])})"
+    if k == "link":
+        return f"(CLink {req_lit(c['req'])})"
     raise ValueError(k)
 
 
@@ -619,11 +623,13 @@ def generate(rng, tier, mult):
         out += extra
     for _ in range(n_learn):
         out.append(gen_learners_case(rng, small=rng.random() < 0.5))
+    for _ in range((60 if tier == "quick" else 600) * mult):
+        out.append({"kind": "link", "req": sorted_like_pipeline(gen_req(rng, max_funcs=4))})
     return out
 
 
 def nontrivial_key(c):
-    if c["kind"] == "range":
+    if c["kind"] in ("range", "link"):
         return None
     specs = [mapsym.spec_str(f.get("spec")) for f in c["req"]["funcs"]]
     shapes = [v["sh"] if isinstance(v, dict) else 0 for _, v in c["req"]["inputs"]]
@@ -635,8 +641,8 @@ def nontrivial_key(c):
 
 
 def distribution(c):
-    if c["kind"] == "range":
-        return {"kind": "range"}
+    if c["kind"] in ("range", "link"):
+        return {"kind": c["kind"]}
     d = {"kind": c["kind"], "tag": c.get("tag"), "storage": c["req"].get("storage"), "nfuncs": len(c["req"]["funcs"]),
          "internal_before_mapped": not internal_after_mapped(c["req"])}
     if c["kind"] == "parts":
